@@ -106,11 +106,15 @@ package vm
 //@   ensures[constant;C01,C10] src == bytecode.AddrDS ==> result == (*ds)[addr]
 //@   ensures[only_stack_pops;C01,C09] src != bytecode.AddrStck ==> field[int](m, "sp") == old(field[int](m, "sp"))
 //
-// deleteContext recycles a context and everything forked from it. Assumed (tree-shaped context
-// structure): the only child table it empties that the caller can still reach is the context's own.
-//@ func deleteContext [C09,C02] trusted
+// deleteContext recycles a context and everything forked from it. Its postcondition is verified (a
+// recycled context must not carry registrations of its previous life); its frame is assumed
+// (tree-shaped context structure): the only child table it changes that the caller can still reach
+// is the context's own.
+//@ func deleteContext [C09,C02,C01,C03]
+//@   checks
+//@   trustframe
 //@   modifies imrow(ctxp.children)
-//@   ensures forall k uint64 :: !imhas(ctxp.children, k)
+//@   ensures[own_table_emptied;C09,C02,C01,C03] forall k uint64 :: !imhas(ctxp.children, k)
 //
 // After a runtime error the machine is back in its initial state (C08: nothing of the failed
 // statement survives but its globals; C19: producing the report never fails) whichever context failed.
